@@ -22,6 +22,8 @@ type plan struct {
 		Msgs      []world.FuzzMsg `json:"msgs"`
 	} `json:"storm"`
 	Fuzz  []world.FuzzMsg   `json:"fuzz"`
+	// ListRaceMs > 0: for that long clients c1 and c2 (each may list its own wallet only) send the SAME listings at the same time
+	ListRaceMs int `json:"list_race_ms"`
 }
 
 func main() {
@@ -79,6 +81,9 @@ func main() {
 			fmt.Fprintln(os.Stderr, srv.ExternalStderr())
 			os.Exit(4) // the server stopped answering (exit 2 is what a Go panic of this very process gives)
 		}
+	}
+	if p.ListRaceMs > 0 {
+		srv.RunListRace(ctx, p.ListRaceMs, log)
 	}
 	if p.Storm != nil {
 		if err := srv.RunStorm(ctx, p.Storm.Msgs, p.Storm.Workers, p.Storm.Generates, log); err != nil {
